@@ -92,8 +92,8 @@ class SigLC:
         return s
 
 
-def leaves(k, V):
-    a = [k.v("a%d" % i) for i in range(5)]
+def leaves(k, V, conc=None):
+    a = list(conc) if conc is not None else [k.v("a%d" % i) for i in range(5)]
     return [("x1", lambda: V.leaf([(1, a[0])])), ("x2", lambda: V.leaf([(2, a[1])])),
             ("x1x3", lambda: V.leaf([(1, a[2]), (3, a[3])])), ("one", lambda: V.leaf([(0, a[4])])), ("zero", lambda: V.zero())]
 
@@ -112,13 +112,22 @@ def exprs(depth):
     return d1 + d2 + d3
 
 
-def run_algebra(k, kind, shapes):
+def concrete_coefficients(P):
+    """coefficient settings under which shared terms cancel exactly / cancel only modulo p / do not cancel"""
+    return [((1, 2, 1, 3, 5), 3), ((1, P - 1, 2, P - 2, 0), P - 1), ((-1, 1, 1, -1, 1), -1), ((P, 2 * P, 1, P + 3, 1), 1)]
+
+
+def run_algebra(k, kind, shapes, conc=None):
     be = k.env.be if kind != "zk" else k.env.rec
     V = SigLC(be) if kind == "sig" else DictLC(be)
     P = k.env.P
     w = [1] + [k.v("w%d" % i) for i in range(1, 4)]
-    s = k.v("s")
-    lv = leaves(k, V)
+    if conc is not None:
+        coeffs, s = concrete_coefficients(P)[conc]
+        lv = leaves(k, V, coeffs)
+    else:
+        s = k.v("s")
+        lv = leaves(k, V)
     obs = []
     for shape in shapes:
         def build(e):
@@ -224,6 +233,15 @@ def build(n=4, tier="quick", backend="snarkjs"):
         for bi in range(0, len(sh), B):
             ents.append(Entry("alg_%s_%03d" % (kind, bi // B), (lambda k, kind=kind, part=sh[bi:bi + B]: run_algebra(k, kind, part)),
                               ins, tags={"c13", kind}))
+    # the same shapes with concrete coefficients (exact / modular / no cancellation) and symbolic wire values: no
+    # branching on coefficients, so every shape is decided whatever the implementation does with vanishing terms
+    shc = exprs(2) if tier == "quick" else sh
+    for kind in ("dict", "sig"):
+        for ci in range(4):
+            for bi in range(0, len(shc), 100):
+                ents.append(Entry("algc_%s_c%d_%03d" % (kind, ci, bi // 100),
+                                  (lambda k, kind=kind, ci=ci, part=shc[bi:bi + 100]: run_algebra(k, kind, part, conc=ci)),
+                                  ("w1", "w2", "w3"), tags={"c13", kind, "concrete"}))
     ents.append(Entry("inverse", run_inverse, ("x",), tags={"c13", "inv"}))
     for m in (3, 5, 7, 13):
         ents.append(Entry("invert_small_%d" % m, (lambda k, m=m: run_invert_small(k, m)), ("x",),
